@@ -15,8 +15,49 @@ def setup():
 
 
 def cases(seed, tier, shard, nshards):
+    import random
+    from . import samplercommon as SC
     yield from poststate.cases(PROPERTY, seed, tier, shard, nshards)
+    rng = random.Random(f'{seed}:C09s:{tier}:{shard}')
+    made = 0
+    while made < (600 if tier == 'quick' else 15000) // nshards:
+        c = SC.random_config(rng)
+        if c is None or not c['all_atom']:
+            continue
+        made += 1
+        yield dict(c, kind='sampler', features=sorted(set(c['features']) | {'sampler_output'}))
 
 
 def run(case):
-    return poststate.run(PROPERTY, case)
+    if case['kind'] != 'sampler':
+        return poststate.run(PROPERTY, case)
+    from . import samplercommon as SC
+    from ..gen.mol import VAL
+    from ..oracles import V
+    txt = f"sampler {case['frag_string']} seed={case['seed']} target_units={case['target_units']}"
+    try:
+        mol = SC.construct_and_sample(case)
+    except Exception:
+        return {'violations': [], 'rejected': {'sampler_dead_end_judged_by_C16': 1}, 'nontrivial': False, 'cls': 'sampler_dead_end', 'sample': txt}
+    viol, checked = [], 0
+    for a, d in mol.nodes(data=True):
+        el = d.get('element')
+        if el == 'H':
+            if mol.degree(a) != 1:
+                viol.append(V('c09.h_degree', f'{txt}: hydrogen {a} has degree {mol.degree(a)}'))
+                break
+            p = next(iter(mol[a]))
+            if any(d.get(k) != mol.nodes[p].get(k) for k in ('fragid', 'fragname')):
+                viol.append(V('c09.h_inherit', f'{txt}: hydrogen {a} has fragid/fragname {d.get("fragid")}/{d.get("fragname")}, its atom {p} {mol.nodes[p].get("fragid")}/{mol.nodes[p].get("fragname")}'))
+                break
+            continue
+        hv = sum(e.get('order', 1) for _, x, e in mol.edges(a, data=True) if mol.nodes[x].get('element') != 'H')
+        tot = sum(e.get('order', 1) for _, x, e in mol.edges(a, data=True))
+        fit = [v for v in (VAL.get((el, d.get('charge', 0))) or []) if v >= hv - 1e-9]
+        if fit:
+            checked += 1
+            if abs(fit[0] - tot) > 1e-9:
+                viol.append(V('c09.valence', f'{txt}: atom {a} {el}: heavy bond orders {hv}, all bond orders {tot}, smallest usual valence {fit[0]}'))
+                break
+    return {'violations': viol, 'counters': {'sampler_atoms_checked': checked, 'resolve_calls_observed': 0}, 'nontrivial': len(mol) > 1,
+            'cls': ('sampler', tuple(case['features'])), 'sample': txt}
